@@ -199,3 +199,87 @@ package interpreter
 //@   mathint
 //@   loop 1 invariant 0 <= iterations && iterations <= 1000000
 //@   loop 1 decreases 1000000 - iterations
+
+// ---- futures (C09): a Future is a settle-once cell. All of state/value/err/resolved are read and written under f.mu only;
+// ---- the lock also protects whether done/cancel are closed. Once settled, no critical section changes the outcome, so every
+// ---- awaiter reads the same value or error, every time.
+//@ monitor Future.mu guards state, value, err, resolved closes done, cancel invariant self.done != nil && self.cancel != nil && self.done != self.cancel && self.resolved == (self.state != FuturePending) && (self.state == FuturePending || self.state == FutureResolved || self.state == FutureRejected) && closed(self.done) == self.resolved && (closed(self.cancel) ==> self.resolved)
+//@ func NewFuture
+//@   strict
+//@   modifies nothing
+//@   ensures result != nil && fresh(result) && result.state == FuturePending && !result.resolved && result.done != nil && result.cancel != nil && result.done != result.cancel && !closed(result.done) && !closed(result.cancel)
+//@ func (*Future).Resolve
+//@   strict
+//@   closeonce
+//@   requires f != nil
+//@   atunlock atlock(f.resolved) ==> f.state == atlock(f.state) && f.value == atlock(f.value) && f.err == atlock(f.err) && f.resolved
+//@   atunlock !atlock(f.resolved) ==> f.state == FutureResolved && f.value == value && f.resolved
+//@ func (*Future).Reject
+//@   strict
+//@   closeonce
+//@   requires f != nil
+//@   atunlock atlock(f.resolved) ==> f.state == atlock(f.state) && f.value == atlock(f.value) && f.err == atlock(f.err) && f.resolved
+//@   atunlock !atlock(f.resolved) ==> f.state == FutureRejected && f.err == err && f.resolved
+//@ func (*Future).Cancel
+//@   strict
+//@   closeonce
+//@   requires f != nil
+//@   atunlock atlock(f.resolved) ==> f.state == atlock(f.state) && f.value == atlock(f.value) && f.err == atlock(f.err) && f.resolved
+//@   atunlock !atlock(f.resolved) ==> f.state == FutureRejected && f.err != nil && f.resolved
+//@ func (*Future).Await
+//@   strict
+//@   requires f != nil
+//@   ensures atlock(f.state) == FutureRejected ==> result == nil && err == atlock(f.err)
+//@   ensures atlock(f.state) != FutureRejected ==> result == atlock(f.value) && err == nil
+//@   atunlock f.state == atlock(f.state) && f.value == atlock(f.value) && f.err == atlock(f.err) && f.resolved == atlock(f.resolved)
+//@ func (*Future).IsResolved
+//@   strict
+//@   requires f != nil
+//@   ensures result == (atlock(f.state) == FutureResolved)
+//@ func (*Future).IsRejected
+//@   strict
+//@   requires f != nil
+//@   ensures result == (atlock(f.state) == FutureRejected)
+//@ func (*Future).IsPending
+//@   strict
+//@   requires f != nil
+//@   ensures result == (atlock(f.state) == FuturePending)
+//@ func (*Future).State
+//@   strict
+//@   requires f != nil
+//@   ensures result == atlock(f.state)
+//@ func (*Future).Value
+//@   strict
+//@   requires f != nil
+//@   ensures atlock(f.state) == FutureResolved ==> result == atlock(f.value)
+//@   ensures atlock(f.state) != FutureResolved ==> result == nil
+//@ func (*Future).Error
+//@   strict
+//@   requires f != nil
+//@   ensures atlock(f.state) == FutureRejected ==> result == atlock(f.err)
+//@   ensures atlock(f.state) != FutureRejected ==> result == nil
+
+// ---- async blocks (C09): Environment is not safe for concurrent use (environment.go), so the environment chain handed to the
+// ---- goroutine of an async block must be the block's own: a fresh child of a fresh, parentless snapshot.
+//@ func NewEnvironment
+//@   strict
+//@   modifies nothing
+//@   ensures result != nil && fresh(result) && result.parent == nil && result.vars != nil && fresh(result.vars)
+//@ func (*Environment).Snapshot
+//@   strict
+//@   modifies nothing
+//@   ensures result != nil && fresh(result) && result.parent == nil
+//@ func NewChildEnvironment
+//@   strict
+//@   modifies nothing
+//@   ensures result != nil && fresh(result) && result.parent == parent && result.vars != nil && fresh(result.vars)
+//@ func (*Interpreter).evaluateAsyncExpr
+//@   assertat "go func() {" fresh(future) && fresh(asyncEnv) && (asyncEnv.parent == nil || fresh(asyncEnv.parent))
+//@   ensures err == nil && typeis(result, *Future) && fresh(result.(*Future))
+//@ func (*Future).AwaitWithTimeout
+//@   strict
+//@   requires f != nil
+//@   atunlock f.state == atlock(f.state) && f.value == atlock(f.value) && f.err == atlock(f.err) && f.resolved == atlock(f.resolved)
+//@ func (*Future).AwaitWithContext
+//@   requires f != nil
+//@   atunlock f.state == atlock(f.state) && f.value == atlock(f.value) && f.err == atlock(f.err) && f.resolved == atlock(f.resolved)
